@@ -37,7 +37,11 @@ def matrix_programs():
               side + "function main() -> void { int[] a = {10, 20, 30}; echo(a[tick(\"i\", 1)]); a[tick(\"j\", 2)] = tick(\"v\", 7); echo(a[2]); }",
               side + "function add(int x, int y) -> int { return x + y; }\nfunction main() -> void { echo(add(tick(\"a1\", 1), tick(\"a2\", 2))); }",
               side + "function main() -> void { boolean b = (tick(\"c1\", 1) > 0) && (tick(\"c2\", 0) > 0) || (tick(\"c3\", 1) > 0); echo(b); }",
-              side + "function main() -> void { int i = 0; while (tick(\"w\", i) < 2) { i = i + 1; } for (int j = tick(\"fi\", 0); j < tick(\"fc\", 2); j = j + tick(\"fu\", 1)) { echo(j); } }"]
+              side + "function main() -> void { int i = 0; while (tick(\"w\", i) < 2) { i = i + 1; } for (int j = tick(\"fi\", 0); j < tick(\"fc\", 2); j = j + tick(\"fu\", 1)) { echo(j); } }",
+              # return / early exit inside loops whose header clauses have side effects (the clauses must not run again after the return)
+              side + "function sq(int n) -> int { for (int i = 0; i < 10; i = tick(\"inc\", i + 1)) { if (i == n) { return i * i; } } return 0 - 1; }\nfunction main() -> void { echo(sq(2)); echo(sq(3)); echo(sq(0)); echo(sq(20)); }",
+              side + "function fw(int n) -> int { int i = 0; while (tick(\"cond\", i) < 10) { if (i == n) { return i + 100; } i = i + 1; } return 0; }\nfunction main() -> void { echo(fw(1)); echo(fw(0)); }",
+              side + "function nest(int n) -> int { for (int i = 0; i < 3; i = tick(\"o\", i + 1)) { for (int j = 0; j < 3; j = tick(\"n\", j + 1)) { if (i * 3 + j == n) { return i * 10 + j; } } } return 99; }\nfunction main() -> void { echo(nest(4)); echo(nest(0)); echo(nest(8)); echo(nest(9)); }"]
     return progs
 
 
